@@ -37,6 +37,9 @@ CHECKS = {
  'C04': dict(technique='TLC model checking of the header-word table / footer protocol (MC_Headers over SgzHeaders: writer classification, thorough re-classification and in-place patch, reader template and mask) + replay of TLC-enumerated matrices embedded in real SEG-Y files, with the model evaluated by TLC on every real 89 x n matrix',
              text='MC_Headers checks every source matrix over 3 (quick) / 4 (thorough) fields x 3 traces x a value set, every detection mode, the NumPy route with every subset of given fields, regular / 2-D and irregular one-hole grids: the file the modelled writer produces reads back exactly (thorough, exhaustive, NumPy), exactly under the property\'s precondition (heuristic), zero (strip), the table names exactly the stored arrays in the order written; four design mutants are each rejected. The TLC-enumerated matrices, stratified by field class, are embedded into real SEG-Y files (8 field embeddings, 2-/4-byte extremes, backgrounds populating all 89 words, trace counts around the 512-byte stride, regular / irregular / 2-D), converted in every mode and read back through gen_trace_header, load_all_headers, the emulator header accessor, get_tracefield_values, variant_headers, bin, text and the raw 3600 bytes, against segyio on the source. TLC also runs the model on the real matrix of each case: table, array order and count must match the written file (conformance), and its precondition verdict decides what the default detection owes.',
              note='values fit the field width; irregular sources inline sorted; model/code table mismatch is reported as model drift, not as a violation', ref='7/C04'),
+ 'C05': dict(technique='TLC model checking of the axis codec at word width W (MC_Geometry over SgzGeometry: signed pack, unsigned read, wide arithmetic, wrap; version gates; crop transform) + replay of every TLC-enumerated axis triple scaled to 32 bits and of the real interval range on written files',
+             text='MC_Geometry checks every (start, step != 0, count) triple of a 5-/6-bit word, both version gates, whole- and fractional-millisecond intervals, regular and irregular trace counts and every aligned crop: the geometry the modelled reader reports is the source\'s (axes, sample origin and interval, trace count, structured flag), five design mutants are each rejected. Every triple TLC enumerates is mapped to 32 bits by x1 and by x2^(32-W) (the latter commutes with the wrap: the header words of the real file must equal the model\'s words times the scale), paired as inline/crossline axes, written by the NumPy and SEG-Y routes and read back through the reader and the emulator; the float rounding the integer model cannot see is enumerated for real: every sample interval 1..65535 us (all in thorough, 550 in quick) x start times at the extremes x sample counts through the NumPy, SEG-Y, 2-D and re-block routes; fixtures of every historical format version are compared with their SEG-Y sources.',
+             note='sample times compared within 1e-9 relative; interval/start words differing from the model are reported as drift', ref='7/C05'),
  'C19': dict(technique='TLC model checking of the setting resolution/validation (SgzConfig!Resolve vs Valid) on the complete grid + conformance of the real function with the model + real conversions',
              text='TLC checks on the complete grid of the property (bits as number/string/negative reciprocal/non-powers of two x blockshape entries in {-1,1..8192}^3, 2-D and 3-D; 2 million states) that the resolution as the code does it accepts only valid combinations, keeps what was given, and accepts every valid combination fully given or with any one parameter free; the real define_blockshape_2d/3d are compared with the model point by point (TLC oracle) and accepted / near-miss points are converted for real on a tiny input: rejected => no output left, accepted => bitwise faithful read-back.',
              note='2-D rates below 1 cannot be faithful and need not be accepted', ref='7/C19'),
